@@ -10,7 +10,7 @@
 From Coq Require Import List String Bool Arith.
 From Helm Require Import Common.Assoc Engine.Types Engine.Eff Engine.Ops Engine.Cluster Engine.Seq
   Engine.SeqProofs Engine.HooksProofsGate Engine.ContainLedger Engine.ContainProofs Engine.ContainDeployed
-  Engine.Contain Engine.ContainRefuted Engine.ContainStore Engine.HooksProofsTrace Engine.ContainReported Engine.ContainCleanup Engine.ContainAtomic Engine.ContainAtomicUp.
+  Engine.Contain Engine.ContainRefuted Engine.ContainStore Engine.HooksProofsTrace Engine.ContainReported Engine.ContainCleanup Engine.ContainAtomic Engine.ContainAtomicUp Engine.ContainAtomicReplace.
 Import ListNotations.
 Local Open Scope string_scope.
 
@@ -97,6 +97,17 @@ Theorem C03_previous_stays_deployed_store :
 Proof. exact previous_stays_deployed_store. Qed.
 Print Assumptions C03_previous_stays_deployed_store.
 
+(* Rollback is excluded from C03_previous_stays_deployed by the property text; this is what the
+   code does: install {a}; upgrade to {a'}; rollback with PATCH a rejected — the update failure
+   marks the CURRENT revision superseded and the rollback's revision failed, so afterwards no
+   revision is deployed although revision 2's content is what is live (replayed by the harness) *)
+Example C03_rollback_supersedes_current_example :
+  exists w, final rb_history = Some (w, OErr EOtherErr) /\
+            statuses (w_led w) = [(1, SSuperseded); (2, SSuperseded); (3, SFailed)] /\
+            aget "d:k" (match aget "ConfigMap/a" (w_objs w) with Some f => f | None => [] end) = Some "v2".
+Proof. exact rollback_supersedes_current. Qed.
+Print Assumptions C03_rollback_supersedes_current_example.
+
 (* the hypotheses are met: install {a,b}; upgrade to {a',c} with CREATE c rejected *)
 Example C03_containment_example :
   (match ex_upgrade with OpUninstall _ => False | _ => True end) /\
@@ -158,6 +169,32 @@ Example C03_atomic_install_example :
                = (w', OErr EOtherErr, t) /\ w_led w' = [] /\ w_objs w' = [].
 Proof. exact atomic_install_example. Qed.
 Print Assumptions C03_atomic_install_example.
+
+(* ... and for ANY initial history, install --replace over an uninstalled / failed history
+   included: a failed atomic install (error class other than name-in-use / ownership conflict /
+   revision-exists, which refuse the install before anything is stored) ends with an EMPTY
+   ledger — the automatic uninstall purges the whole history — and none of the manifest's
+   resources in the cluster, also those a previous failed install left behind. *)
+Theorem C03_atomic_install_any_history :
+  forall rn ns fl cid vid mani hks cf w w' t,
+    f_atomic fl = true -> f_dry_run fl = false -> NoDup (revs (w_led w)) ->
+    (forall r, In r mani -> manifest_keep r = false) ->
+    (f_no_hooks fl = true \/ (hooks_for PreDelete hks = [] /\ hooks_for PostDelete hks = [])) ->
+    (forall key, cf_k cf <> Some (VDelete, key)) ->
+    run_store_op rn ns (mkOp (OpInstall fl cid vid mani hks) nofault cf) w = (w', OErr EOtherErr, t) ->
+    w_led w' = [] /\ forall r, In r mani -> amem (rkey r) (w_objs w') = false.
+Proof. exact atomic_install_any. Qed.
+Print Assumptions C03_atomic_install_any_history.
+
+(* a failed install left 1:failed with a in the cluster; install --replace --atomic of {a',b}
+   with CREATE b rejected: the whole history and both resources are gone *)
+Example C03_atomic_install_replace_example :
+  statuses (w_led ar_w0) = [(1, SFailed)] /\ map fst (w_objs ar_w0) = ["ConfigMap/a"] /\
+  f_atomic ar_fl = true /\ f_replace ar_fl = true /\ NoDup (revs (w_led ar_w0)) /\
+  exists w' t, run_store_op "rel" "default" (mkOp (OpInstall ar_fl 2 2 [cmr "a" "v2"; cmr "b" "v2"] []) nofault ar_cf) ar_w0
+               = (w', OErr EOtherErr, t) /\ w_led w' = [] /\ w_objs w' = [].
+Proof. exact atomic_install_replace_example. Qed.
+Print Assumptions C03_atomic_install_replace_example.
 
 (* C03_atomic_upgrade_ledger_partial — the LEDGER half of the atomic-upgrade clause, for every
    cluster behaviour (no storage fault, no crash, no history limit, revisions numbered from 1,
